@@ -104,6 +104,95 @@ type site struct{ target, syscall string }
 
 var sites = []site{{"src", "newfstatat"}, {"src", "openat"}, {"src", "fstat"}, {"src", "read"}, {"src", "close"}, {"dst", "openat"}, {"dst", "write"}, {"dst", "write"}, {"dst", "close"}}
 
+var allSrcKinds = []string{"file", "missing", "dir", "mode000", "symlink_ok", "dangling", "loop", "spacename", "nonascii_name", "longname", "same_as_dst", "emptyarg", "fifo", "stdin", "relative", "dotslash", "barename", "dotdot_via_symlink"}
+var allDstKinds = []string{"absent", "empty", "shorter", "equal", "longer", "old_image", "ro_file", "ro_dir", "parent_missing", "parent_is_file", "is_dir", "symlink_file", "dangling_symlink", "dev_full", "relative", "dotdot", "longname", "emptyarg", "dev_null", "trailing_slash", "dir_no_search", "hardlink_to_src", "symlink_to_src", "barename", "rw_file_in_ro_dir", "dotdot_via_symlink"}
+var allShapes = []string{"src-dst", "src-dst-lst", "none", "src", "four", "d-src-dst", "d-only", "v", "help", "badflag", "src-dst-dashlst", "src-dst-v", "d-src"}
+var allLstKinds = []string{"ok", "parent_missing", "same_as_dst", "existing", "same_as_src", "is_dir", "dev_full", "symlink_to_dst", "symlink_to_src", "ro_existing"}
+
+// kindGrid: every source kind, destination kind (flat and WCOFF), argv shape, list kind, stdout kind,
+// encoding and kind of token damage occurs at least once in every run, each combined with otherwise
+// plain choices - the random part then adds the combinations.
+func kindGrid(progs []*c19Prog, baseSeed uint64) []*Scenario {
+	var flat, coff *c19Prog
+	for _, p := range progs {
+		if p.Name == "grid_flat" {
+			flat = p
+		}
+		if p.Name == "grid_coff" {
+			coff = p
+		}
+	}
+	var out []*Scenario
+	n := uint64(0)
+	mk := func(p *c19Prog, mut func(s *Scenario)) {
+		n++
+		s := &Scenario{Seed: deriveSeed(baseSeed, 503, n), ProgName: p.Name, Header: p.Header, Body: p.Body, Enc: "ascii", Shape: "src-dst", SrcKind: "file", DstKind: "absent"}
+		s.DstPrefillSeed = s.Seed
+		mut(s)
+		if (s.SrcKind == "mode000" || s.DstKind == "ro_file" || s.DstKind == "ro_dir" || s.DstKind == "dir_no_search" || s.DstKind == "rw_file_in_ro_dir") && s.Uid == 0 {
+			s2 := *s
+			s2.Uid = nobody
+			s2.Seed = deriveSeed(baseSeed, 504, n)
+			out = append(out, &s2)
+		}
+		out = append(out, s)
+	}
+	for _, k := range allSrcKinds {
+		k := k
+		mk(flat, func(s *Scenario) { s.SrcKind = k })
+	}
+	for _, k := range allDstKinds {
+		k := k
+		mk(flat, func(s *Scenario) { s.DstKind = k })
+		mk(coff, func(s *Scenario) { s.DstKind = k })
+	}
+	for _, k := range allShapes {
+		k := k
+		mk(flat, func(s *Scenario) {
+			s.Shape = k
+			if k == "src-dst-lst" || k == "four" {
+				s.LstKind = "ok"
+			}
+		})
+	}
+	for _, k := range allLstKinds {
+		k := k
+		mk(flat, func(s *Scenario) { s.Shape, s.LstKind = "src-dst-lst", k })
+	}
+	for _, k := range []string{"closed", "devfull", "deadpipe"} {
+		k := k
+		mk(flat, func(s *Scenario) { s.Stdout = k })
+	}
+	for _, e := range []string{"sjis", "utf8"} {
+		for v := uint64(1); v <= 3; v++ {
+			e, v := e, v
+			mk(flat, func(s *Scenario) { s.Enc, s.DecoSeed = e, s.Seed|v })
+			mk(coff, func(s *Scenario) { s.Enc, s.DecoSeed, s.CRLF = e, s.Seed|v, v == 2 })
+		}
+	}
+	for brk := 1; brk <= 4; brk++ { // token damage: first / middle / last line, with and without a final newline
+		for _, pos := range []int{0, len(flat.Header) + len(flat.Body)/2, len(flat.Header) + len(flat.Body) - 1} {
+			for _, nofinal := range []bool{false, true} {
+				brk, pos, nofinal := brk, pos, nofinal
+				mk(flat, func(s *Scenario) {
+					s.Break, s.BreakLine, s.NoFinalNL = brk, pos, nofinal
+					s.Enc, s.DecoSeed = "sjis", s.Seed|1
+				})
+			}
+		}
+	}
+	mk(flat, func(s *Scenario) { s.BOM = true })
+	mk(flat, func(s *Scenario) { s.MixedEOL = 7 })
+	mk(flat, func(s *Scenario) { s.Argv0 = "nask" })
+	mk(flat, func(s *Scenario) {
+		s.Env = []string{"LANG=ja_JP.UTF-8", "LC_ALL=ja_JP.UTF-8"}
+		s.Enc, s.DecoSeed = "sjis", 11
+	})
+	mk(flat, func(s *Scenario) { s.Env = []string{"LANG=ja_JP.SJIS"}; s.Enc, s.DecoSeed = "utf8", 13 })
+	mk(flat, func(s *Scenario) { s.Shape, s.SrcKind = "d-src-dst", "barename" })
+	return out
+}
+
 func (c *c19Ctx) genScenario(seed uint64, progs []*c19Prog) *Scenario {
 	r := NewRNG(seed)
 	s := &Scenario{Seed: seed}
@@ -494,6 +583,7 @@ func runC19(tierName string) int {
 
 	var scenarios []*Scenario
 	grid := gridScenarios(c, progs, tier.grid, baseSeed)
+	grid = append(grid, kindGrid(progs, baseSeed)...)
 	scenarios = append(scenarios, grid...)
 	nGrid := len(grid)
 	for i := 0; i < tier.nRandom; i++ {
